@@ -486,6 +486,8 @@ class Engine(object):
                 out[n] = SV('opt', None, (z3.BoolVal(True), self.default_of(ex, ty[4:], path)))
             elif ty == 'Hopt':
                 out[n] = SV('H', hp.NONE_H)
+            elif ty == 'none':
+                out[n] = hp.NONE       # a parameter the contract fixes to its default None
             else:
                 raise Unsupported('missing argument %s of %s' % (n, k.qualname))
         return out
@@ -513,6 +515,23 @@ class Engine(object):
             nf = z3.Not(cond)
             path.pc.append(nf)
             ex.noraise_ids.add(nf.get_id())
+        # exceptions the contract allows without saying when (hints['may_raise']): the state at the raise is
+        # the pre-state when the contract says raise_unchanged, otherwise anything the frame allows
+        for exc in k.hints.get('may_raise', ()):
+            p2 = path.fork(hp.fresh('raises_%s' % exc, z3.BoolSort()))
+            if not k.raise_unchanged:
+                hx = Heap.symbolic('exc_%s' % q.replace('.', '_')) if k.touches is None else Heap.partial('exc_%s' % q.replace('.', '_'), path.heap, k.touches)
+                p2.pc.append(hx.alloc >= path.heap.alloc)
+                cx = CallCtx(k, a, path.heap)
+                cx.side, cx.h1 = 'caller', hx
+                if k.frame is None:
+                    p2.pc.extend(hp.same_below(path.heap, hx, path.heap.alloc, comps=k.touches))
+                else:
+                    p2.pc.extend(f for _, f in k.frame(cx))
+                for _, f in k.hints.get('raise_keeps', lambda c_: [])(cx):
+                    p2.pc.append(f)
+                p2.heap = hx
+            path.exc.append((exc, p2, line))
         # normal exit: fresh post state constrained by the postcondition
         # (a pure callee - no write to, and no allocation of, anything the caller can reach - keeps the heap)
         if k.pure:
@@ -654,7 +673,18 @@ class Engine(object):
                         ex.oblige('frame:%s:%s' % (name, tagp), p, f, ('frame',))
             else:
                 exc, ln = val
-                if exc in k.raises:
+                if exc in k.hints.get('may_raise', ()):
+                    # allowed without a stated condition; the frame is enforced at every write
+                    c.h1 = p.heap
+                    for name_, f_ in k.hints.get('raise_keeps', lambda c_: [])(c):
+                        ex.oblige('raises:%s:%s:L%s' % (exc, name_, ln), p, f_, ('raises',), ln)
+                    if k.frame is not None and not k.raise_unchanged:
+                        for name_, f_ in k.frame(c):
+                            ex.oblige('raises:%s:frame:%s:L%s' % (exc, name_, ln), p, f_, ('frame',), ln)
+                    elif k.raise_unchanged:
+                        for comp, f in hp.same_below(c.h0, p.heap, c.h0.alloc, named=True):
+                            ex.oblige('raises:%s:state_unchanged:%s:L%s' % (exc, comp, ln), p, f, ('frame',), ln)
+                elif exc in k.raises:
                     ex.oblige('raises:%s:only_if:L%s' % (exc, ln), p, k.raises[exc](c), ('raises',), ln)
                     for name_, f_ in k.hints.get('raise_ensures', lambda c_, p_, e_: [])(c, p, exc):
                         ex.oblige('raises:%s:%s:L%s' % (exc, name_, ln), p, f_, ('raises',), ln)
